@@ -339,7 +339,7 @@ def gen_oom_fast_clock(seed, drv):
     """the OOM checks at tick rates above 1000/s: growing containers with tiny allocations cross their own limit, and the pool its capacity, in consecutive
     ticks (odd and even ones) of a clock that ticks several times per millisecond; every single tick must end with everyone within limits"""
     rng = random.Random(seed)
-    tps = rng.choice([2048, 4096])
+    tps = rng.choice([2048, 4096, 32768])      # at 32768 ticks/s a growing container gains less than a MB per tick
     over = rng.random() < 0.5
     cfg = {"tps": tps, "multi": True, "over": over, "npools": 1, "cpus": 16, "ram": fstr(rng.choice([F(1, 8), F(1, 4), 1]))}
     pipes = [{"prio": 3, "ops": [simple_op(tps, rng.randint(0, 3), read="5")]} for _ in range(rng.randint(3, 7))]
@@ -385,6 +385,61 @@ def gen_suspend_overcommitted(seed, drv):
         o = g.tick()
         if o["ok"] and o["state"]["pools"][0]["ar"] < 0 and o["state"]["pools"][0]["D"]:
             g.count("write_out_ended_with_free_ram_still_negative")
+    g.sc["order"] = g.order
+    return g
+
+
+def gen_suspend_while_others_grow(seed, drv):
+    """overcommit: three containers use 60 of 64 GB; one of them (25 GB) is suspended in the very tick in which another one steps from 15 to 25 GB.  What is
+    running then needs 45 GB -- no kill is needed; a stale total that still counts the suspended container would say 70"""
+    rng = random.Random(seed)
+    tps = rng.choice([1, 2, 4])
+    cfg = {"tps": tps, "multi": True, "over": True, "npools": 1, "cpus": 8, "ram": "64"}
+    k = rng.randint(1, 2)
+    big = rng.choice([22, 25])
+    pipes = [{"prio": 3, "ops": [simple_op(tps, k, fixed=15), simple_op(tps, rng.randint(4, 8), fixed=big, parents=[0])]},
+             {"prio": 3, "ops": [simple_op(tps, rng.randint(8, 12), fixed=20)]},
+             {"prio": 3, "ops": [simple_op(tps, k, fixed=big), simple_op(tps, rng.randint(4, 8), fixed=1, parents=[0])]}]
+    g = _mk(rng, cfg, pipes, drv)
+    order = [0, 1, 2]
+    rng.shuffle(order)
+    for pid in order:
+        g.assign(0, 1, 64, sensible_refs(g, pid, True))
+    for t in range(k + 10):
+        if g.dead:
+            break
+        for c in g.pools()[0]["A"]:
+            # the container of pipeline 2 (first operator `big` GB, then 1 GB) is the one to suspend, at its first boundary
+            if c[4] and c[7] and c[7][0] == g.first[2]:
+                g.emit(["suspend", 0, c[0]]); g.count("suspend_req_legal")
+        o = g.tick()
+    g.count("suspension_in_the_tick_another_container_grows")
+    g.sc["order"] = g.order
+    return g
+
+
+def gen_pool_number_as_text(seed, drv):
+    """a command whose pool number arrives as text ("1", as a careless external scheduler may send it): it names no pool the executor knows -- refused, with
+    nothing started and nothing dropped on the floor -- while the well-formed commands around it are carried out"""
+    rng = random.Random(seed)
+    tps = rng.choice([1, 2, 4])
+    cfg = {"tps": tps, "multi": True, "over": False, "npools": rng.choice([2, 3]), "cpus": 4, "ram": "16"}
+    pipes = [{"prio": 3, "ops": [simple_op(tps, rng.randint(2, 4), fixed=F(1, 8))]} for _ in range(3)]
+    g = _mk(rng, cfg, pipes, drv)
+    g.assign(0, 1, 1, sensible_refs(g, 0, True))
+    g.tick()
+    g.assign(str(rng.randrange(cfg["npools"])), 1, 1, sensible_refs(g, 1, True))
+    g.tick()
+    g.tick()
+    if rng.random() < 0.5:
+        cs = [c for c in g.pools()[0]["A"]]
+        if cs:
+            g.emit(["suspend", str(0), cs[0][0]])
+            g.tick()
+    g.assign(1, 1, 1, sensible_refs(g, 2, True))
+    for _ in range(4):
+        g.tick()
+    g.count("pool_number_as_text_scenarios")
     g.sc["order"] = g.order
     return g
 
